@@ -11,3 +11,7 @@ import OdmlModel.Props.C04
 #print axioms C04.new_id_malformed_rejected
 #print axioms C04.new_id_canonical
 #print axioms C04.canonical_nonempty
+#print axioms C04.ids_canonical_after_any_history
+#print axioms C04.ctor_op_canonical
+#print axioms C04.new_id_op_canonical
+#print axioms C04.cleared_name_is_canonical_id
